@@ -139,6 +139,13 @@ Lines(ls) == [i \in 1..Len(ls) |-> Nd("line", 0, ls[i][1], "", [j \in 1..Len(ls[
 \* an indented code block neither starts nor ends with a blank line, and its first line is not indented further
 ICodeOK(ls) == ls[1][2] # <<>> /\ ls[Len(ls)][2] # <<>> /\ ls[1][1] = "0"
 
+\* indentation of the fence itself: varied at top level only (inside a container the container's own
+\* indentation rules interfere); with lines that are themselves indented the boundary widths 1 and 3, else 2
+FenceInds(ls, info) ==
+  IF Top.t = "doc" /\ info = ""
+  THEN IF \E i \in 1..Len(ls) : ls[i][1] # "0" THEN {0, 1, 3} ELSE {0, 2}
+  ELSE {0}
+
 Cell(i, off) == CellSeq[((i + off) % Len(CellSeq)) + 1]
 TblNode(sh) ==
   LET nc == sh[1]
@@ -155,7 +162,8 @@ OpenB ==
      \/ /\ KindOK("q") /\ Push(Frame("q", 0, ""))
      \/ \E t \in ListKinds : KindOK(t) /\ Push(Frame(t, 0, ""))
      \/ /\ KindOK("hr") /\ AddKid(Nd("hr", 0, "", "", <<>>))
-     \/ /\ KindOK("fence") /\ \E ls \in LineSeqs, info \in {"", "go"} : AddKid(Nd("fence", 0, info, "", Lines(ls)))
+     \/ /\ KindOK("fence") /\ \E ls \in LineSeqs, info \in {"", "go"} :
+                                  \E ind \in FenceInds(ls, info) : AddKid(Nd("fence", ind, info, "", Lines(ls)))
      \/ /\ KindOK("icode") /\ \E ls \in LineSeqs : ICodeOK(ls) /\ AddKid(Nd("icode", 0, "", "", Lines(ls)))
      \/ /\ KindOK("tbl") /\ \E sh \in TblShapes : AddKid(TblNode(sh))
      \/ /\ KindOK("mathb") /\ \E ms \in MathSeqs : AddKid(Nd("mathb", 0, "", "", [j \in 1..Len(ms) |-> Txt(ms[j])]))
